@@ -220,7 +220,7 @@ class RepeatedNodeWrapper(MutableSequence[_M]):
             self._repeated.items[indexes.slice_from_range(r)] = values
             for value in values:
                 value.reattach(self._repeated.token_store)
-            self._notify_splice(r.start, r.stop, values)
+            self._notify_splice(r.start, max(r.start, r.stop), values)
         else:
             if len(r) != len(values):
                 raise ValueError(f'attempt to assign sequence of size {len(values)} to extended slice of size {len(r)}')
